@@ -1,6 +1,7 @@
 import Tahoe.Immutable.FetchLemmasC46
 import Tahoe.Immutable.SegLemmas
 import Tahoe.Immutable.SysLemmas
+import Tahoe.Immutable.SysFinderLemmas
 /-! C46 — immutable reads always terminate (property theorems over the DownloadNode segment queue
 `Tahoe.Fetch.Node` on top of the SegmentFetcher event system, over one read `Tahoe.Fetch.Seg`
 (`Segmentation`) and over the composed system `Tahoe.Fetch.Sys` = reads routed through the node;
@@ -31,6 +32,7 @@ The theorems are about the code as repaired in /repo by 6853eb2 (`fixes/C46-acti
 | … for any pattern of server failures, corrupted or inconsistent shares | node/fetcher theorems allow every answer for every started share in any order (`NEvOk` only forbids OVERDUE from a share that is not outstanding); decode / ciphertext-hash failures = `badSegs` in `no_stuck_state`; the mapping from server faults to share events: monitor only |
 | … late answers | OVERDUE events in the fetcher model (theorem); finder / DYHB overdue timers: `C03.finder_answers_every_hungry` (ShareFinder model) |
 | … concurrent reads on the same file object | `no_stuck_state` quantifies over any interleaving of `getSegment` requests (several per segment, several segments) and cancels; each read is its own `Seg` (`read_never_idle`) — concurrency between reads exists only through the node queue |
+| the finder inside the composed system (`SysF`: `want_more_shares` → `hungry`, queued `got_shares` / `no_more_shares` back to the node) | model tied (`sysf` lines: real DownloadNode + real ShareFinder + scripted servers); `every_read_terminates_with_finder_partial` (routing invariant preserved; the `noMore` clause still a hypothesis — see its docstring) |
 | a read never hangs once every server has answered or failed | `no_stuck_state` + `read_terminates_when_answered`; `NQuiescent` = "every server has answered or failed" at the fetcher interface; that the finder reaches that state: `idle_fetcher_has_asked_for_more` (an idle un-told fetcher has called `want_more_shares`) + `C03.finder_answers_every_hungry` (every `want_more_shares` is answered by `got_shares` or `no_more_shares` once every server call returned or failed); that the shares do (every `get_block` gets a terminal event): assumption, monitor only (share.py not modelled) |
 | a failed read does not prevent later reads from completing | `later_reads_progress` (after any history incl. failed segments a new request is accepted by a fresh running fetcher and retired at quiescence); `unfixed_stuck_counterexample` (the code before the fix violated it) |
 | quantifier: decode failures and ciphertext hash mismatches followed by further reads on the same node | `no_stuck_state` / `later_reads_progress` with `badSegs`; end-to-end: crafted shares (monitor) |
@@ -277,6 +279,52 @@ theorem every_read_terminates (k numSegs : Nat) (badSegs : List Nat) (filesize s
         · exact hdel r hr q hq1 hin
       · have := hturns r hr; omega
 
+
+/-! ### the composed system with the real finder (`SysF` = `Sys` + `Tahoe.Finder`) -/
+
+def sysfInit (k numSegs : Nat) (badSegs : List Nat) (filesize segsize guess mx : Nat) (servers : List Nat) : SysF :=
+  { sys := sysInit k numSegs badSegs filesize segsize guess, finder := { maxOutstanding := mx, servers := servers } }
+
+/-- **C46 (11), with the finder inside — partial.**  Full statement wanted: "every history of `SysF`
+(reads + node + fetchers + ShareFinder, shares as the only environment) in which nothing is pending
+any more — no queued turn of a read, a fetcher or the finder, no `get_buckets` query in flight, no
+queued `got_shares` / `no_more_shares` call, every `_deliver` run, no block request outstanding —
+ends with every read's Deferred fired."  Proved here: the same conclusion from `SysQuiescent` of the
+`Sys` component, for every valid history of `SysF` — i.e. the routing through the finder
+(`want_more_shares` → `hungry()`, queued `got_shares` / `no_more_shares` calls reaching the node
+later, in any interleaving with everything else) preserves the routing invariant of `Sys`.
+Missing: the invariant that links the finder's `told` flag to the `noMore` flag of every *fresh*
+fetcher generation (a new fetcher starts un-told, asks again — `idle_fetcher_has_asked_for_more` —
+and the finder, already exhausted, queues `no_more_shares` again — `C03.finder_answers_every_hungry`),
+which would derive the `noMore` clause of `NQuiescent` from "finder quiescent ∧ mail empty" instead
+of assuming it. -/
+theorem every_read_terminates_with_finder_partial (k numSegs : Nat) (badSegs : List Nat)
+    (filesize segsize guess mx : Nat) (servers : List Nat) (es : List SysFEv)
+    (hv : SysFValid (sysfInit k numSegs badSegs filesize segsize guess mx servers) es)
+    (hq : SysQuiescent (sysfRun (sysfInit k numSegs badSegs filesize segsize guess mx servers) es).sys) :
+    ∀ r ∈ (sysfRun (sysfInit k numSegs badSegs filesize segsize guess mx servers) es).sys.reads,
+      r.seg.result.isSome = true ∨ r.seg.hungry = false := by
+  intro r hr
+  have hi := sysf_run_inv es _ (sysinv_init k numSegs badSegs filesize segsize guess)
+    (by intro m hm; simp [sysfInit] at hm) hv
+  obtain ⟨hnq, hturns, hdel⟩ := hq
+  have hempty := ninv_quiescent_empty hi.node hnq
+  have hri := hi.reads r hr
+  cases hres : r.seg.result with
+  | some _ => exact Or.inl rfl
+  | none =>
+    right
+    cases hh : r.seg.hungry with
+    | false => rfl
+    | true =>
+      exfalso
+      rcases (hri.live.1 hres).2 hh with hact | hturn
+      · obtain ⟨q, hq1, hin⟩ := hri.track hres hact
+        rcases hin with hin | hin
+        · rw [hempty] at hin; simp at hin
+        · exact hdel r hr q hq1 hin
+      · have := hturns r hr; omega
+
 /-! ### concrete instances -/
 
 private def sh (id shnum server rtt : Nat) : Share := { id := id, shnum := shnum, server := server, rtt := rtt }
@@ -364,5 +412,18 @@ example : SysQuiescent (sysRun (sysInit 1 2 [] 32 16 5) exSys) ∧
 has answered CORRUPT the next turn asks again -/
 example : (doLoop { (step (step (step (init 2) (.addShares [sh 0 0 0 0])) .loop) (.share (sh 0 0 0 0) .corrupt)) with out := [] }).out
     = [.wantMore] := by decide
+
+
+/-- the whole stack on a one-segment 1-of-N file with one server: the fetcher's `want_more_shares` makes
+the finder ask the server, its answer travels back as a queued `got_shares`, the read completes -/
+private def exSysF : List SysFEv :=
+  [.sys (.startRead 0 0 8), .sys (.node (.loop 0)), .fturn, .fturn, .fresponse 0 [0], .fturn, .mail,
+   .sys (.node (.loop 0)), .sys (.node .uebKnown), .sys (.node (.share 0 (sh 0 0 0 0) .complete)),
+   .sys (.node (.loop 0)), .sys (.deliver 0)]
+
+example : SysQuiescent (sysfRun (sysfInit 1 1 [] 8 8 8 2 [0]) exSysF).sys ∧
+    (sysfRun (sysfInit 1 1 [] 8 8 8 2 [0]) exSysF).sys.reads.map (fun r => (r.rid, r.seg.result)) = [(0, some none)] ∧
+    (sysfRun (sysfInit 1 1 [] 8 8 8 2 [0]) exSysF).mail = [] ∧
+    (sysfRun (sysfInit 1 1 [] 8 8 8 2 [0]) exSysF).finder.pending = [] := by decide
 
 end Tahoe.C46
